@@ -86,7 +86,17 @@ def oracle(case, rec):
         m = np.ones(q.size, dtype=bool)
         m[q.size // 3: q.size // 3 + max(1, q.size // 5)] = False
         try:
-            pre = np.asarray(emd.cycles.get_cycle_vector(q, return_good=False, mask=m.copy(), **kwargs))[:, 0]
+            mm = m.copy()
+            pre = np.asarray(emd.cycles.get_cycle_vector(q, return_good=False, mask=mm, **kwargs))[:, 0]
+            if not np.array_equal(mm, m):
+                raise Violation('C12/get_cycle_vector/mask-modified', 'the validity mask passed in was changed by the call')
+            ro = m.copy()
+            ro.setflags(write=False)
+            pre2 = np.asarray(emd.cycles.get_cycle_vector(q, return_good=False, mask=ro, **kwargs))[:, 0]
+            if not np.array_equal(pre, pre2):
+                raise Violation('C12/get_cycle_vector/read-only-mask-changes-result', '')
+        except Violation:
+            raise
         except Exception as e:
             raise Violation('C12/get_cycle_vector/raises/%s/all-cycles-with-mask' % type(e).__name__, repr(e))
         if not np.any(np.abs(np.abs(np.diff(q)) - step) <= 1e-12):
